@@ -9,7 +9,7 @@ Grammar of a case (one line, whitespace separated tokens; -1 = none):
             O <p> (<nc> CONN*)* Q <q> (<nq> QCONN*)*
   SCRIPT := <nops> OP*
   OP     := snd <port> EXPR | qry <port> EXPR | sch DL <input> EXPR <slot|-1> <period|-1> | can <slot> | pan <code>
-            | nst <threads> <k>   (harness only: nested simulation; skipped by the model)
+            | nst <threads> <k> | nsp <threads> <k>   (harness only: nested simulation, nsp = its model panics; skipped by the model)
   EXPR   := in | c <n> | ip <n>          DL := a <t> | r <d>
   CONN   := KEEP <add> (m <model> <input> | s <sink>)      KEEP := all | even | lt <c>
   QCONN  := KEEP <add> <model> <replier> <radd>
@@ -51,8 +51,8 @@ def r_op(o):
         return "%s %d %s" % (o[0], o[1], r_expr(o[2]))
     if o[0] == "sch":
         return "sch %s %d %s %s %s" % (r_dl(o[1]), o[2], r_expr(o[3]), opt(o[4]), opt(o[5]))
-    if o[0] == "nst":
-        return "nst %d %d" % (o[1], o[2])
+    if o[0] in ("nst", "nsp"):
+        return "%s %d %d" % (o[0], o[1], o[2])
     return "%s %d" % (o[0], o[1])
 
 
